@@ -933,3 +933,29 @@ mutant("M155-straggler-test-as-ratio", ["C08"], "SCHED-DIV-1", (BACKUP_F, "    r
 mutant("M156-mean-task-duration-rate", ["C08"], "SCHED-DIV-1", (BACKUP_F, "    duration = now - start_times[task]\n", "    duration = now - start_times[task]\n    rate = len(end_times) / (now - min(start_times.values()))\n"))
 benign("B-straggler-test-commuted", ["C08"], (BACKUP_F, "    result = duration > completed_durations[n] * slow_factor", "    result = slow_factor * completed_durations[n] < duration"))
 benign("B-straggler-fraction-of-tasks", ["C08"], (BACKUP_F, "    duration = now - start_times[task]\n", "    duration = now - start_times[task]\n    done_fraction = len(end_times) / len(start_times)\n"))
+# seeded round 3 (C03-6, C15-5, C16-6)
+mutant(
+    "M157-repeat-extra-mem-before-flatten",
+    ["C03"],
+    "MEM-STALE-1",
+    (MANIPF, "    if axis is None:\n        x = flatten(x)\n        axis = 0\n\n    shape = x.shape[:axis] + (x.shape[axis] * repeats,) + x.shape[axis + 1 :]", "    extra_projected_mem = x.chunkmem * repeats\n    if axis is None:\n        x = flatten(x)\n        axis = 0\n\n    shape = x.shape[:axis] + (x.shape[axis] * repeats,) + x.shape[axis + 1 :]"),
+    (MANIPF, "    # extra memory from calling 'nxp.repeat' on a chunk\n    extra_projected_mem = x.chunkmem * repeats\n    return general_blockwise(", "    return general_blockwise("),
+)
+benign(
+    "B-repeat-extra-mem-via-local",
+    ["C03"],
+    (MANIPF, "    # extra memory from calling 'nxp.repeat' on a chunk\n    extra_projected_mem = x.chunkmem * repeats\n", "    # extra memory from calling 'nxp.repeat' on a chunk\n    chunk_bytes = x.chunkmem\n    extra_projected_mem = chunk_bytes * repeats\n"),
+)
+mutant(
+    "M158-key-dispatcher-remembers-results",
+    ["C15", "C02"],
+    "NEST-DISPATCH-1",
+    (PBW, "    return back_key_functions_dict[arg.name](arg)\n", "    if arg not in _SEEN:\n        _SEEN[arg] = back_key_functions_dict[arg.name](arg)\n    return _SEEN[arg]\n"),
+    (PBW, "def _apply_blockwise_key_func_to_chunk_key(", "_SEEN: dict = {}\n\n\ndef _apply_blockwise_key_func_to_chunk_key("),
+)
+mutant(
+    "M159-repeat-accepts-index-like",
+    ["C16"],
+    "LAZY-IMPLICIT-1",
+    (MANIPF, "    if not isinstance(repeats, int):\n        raise ValueError(\"repeat only supports integral values for `repeats`\")\n", "    import operator\n\n    repeats = operator.index(repeats)\n"),
+)
